@@ -149,6 +149,24 @@ BigCases(base) ==
       j == FirstStr(k, base)
   IN {Case(k, "string-limit", Base(k, Bits(k), "min", Pos(k, j) :> StrVal(Schema[k].params[j], n, 3))) : n \in BigLens}
 
+\* one message holding more than a thousand values of one kind (a contact list, a dialog list, future salts): per element kind -
+\* a type with a single constructor (a concrete pointer in Go), a type with several (an interface), int, long, string - the
+\* first LongCount definitions of the API schema that carry such a vector
+LongLen == 1100
+LongCount == 2
+ElemClass(p) == IF ParamKind(p) = "object" THEN (IF Cardinality(TypeCtors(p.base)) = 1 THEN "single" ELSE "multi")
+                ELSE IF p.base \in {"int", "long", "string"} THEN p.base ELSE "other"
+LongParams(k, cls) == {j \in DataIdx(k) : IsVecParam(Schema[k].params[j]) /\ ElemClass(Schema[k].params[j]) = cls}
+LongCarriers(cls) == LET S == {k \in Defs : Encodable(k) /\ Schema[k].file = "api_121.tl" /\ LongParams(k, cls) # {}}
+                         q == SetToSortSeq(S, <)
+                     IN {q[i] : i \in 1..(IF Len(q) < LongCount THEN Len(q) ELSE LongCount)}
+LongCases == IF BigLens = {} THEN {} ELSE
+  UNION {{LET j == CHOOSE m \in LongParams(k, cls) : \A m2 \in LongParams(k, cls) : m <= m2
+              one == FullScalar(Schema[k].params[j], 1) IN    \* objects: the minimal value of the type, a thousand times
+          Case(k, "long-vector", Base(k, Bits(k), "full", Pos(k, j) :> [k |-> "vec", e |-> [m \in 1..LongLen |->
+                 IF cls \in {"single", "multi"} THEN one ELSE FullScalar(Schema[k].params[j], m)]])) :
+             k \in LongCarriers(cls)} : cls \in {"single", "multi", "int", "long", "string"}}
+
 RECURSIVE Strip(_)
 Strip(v) == IF v.k = "obj" THEN [k |-> "obj", id |-> v.id, idhex |-> v.idhex, f |-> [j \in 1..Len(v.f) |-> Strip(v.f[j])]]
             ELSE IF v.k = "vec" THEN [k |-> "vec", e |-> [j \in 1..Len(v.e) |-> Strip(v.e[j])]] ELSE v
@@ -209,7 +227,7 @@ GzipCase(j) ==
 SpecialCases == [j \in 1..4 |-> ContainerCase(j - 1)] \o [j \in 1..3 |-> RpcResultCase(j)] \o [j \in 1..3 |-> GzipCase(j)]
 
 Todo == {k \in Defs : Encodable(k)}
-AllCases == UNION {Family(k) : k \in Todo} \cup BigCases("string") \cup BigCases("bytes") \cup WrapperCases
+AllCases == UNION {Family(k) : k \in Todo} \cup BigCases("string") \cup BigCases("bytes") \cup WrapperCases \cup LongCases
 Skipped == {Schema[k].name : k \in Defs \ Todo}
 
 ASSUME ndJsonSerialize(IOEnv.VERIF_OUT, [j \in 1..Cardinality(AllCases) |-> Emit(SetToSeq(AllCases)[j])] \o SpecialCases)
